@@ -750,7 +750,7 @@ def parse_dump(s):
         return out
     for e in s.split(";"):
         p, k, d, x, v = e.split("|")
-        out[p] = [KNAME[k], "!" if d == "!" else ("" if d == "-" else d), x == "T", v == "T"]
+        out[p] = [KNAME[k], "!" if d == "!" else ("" if d == "-" else d), x == "T", "?" if v == "?" else v == "T"]
     return out
 
 
@@ -852,8 +852,9 @@ def _classify(fmt, d, m, res=None, facts=None):
                 # the entry has no new contents and sits at another path than in the base tree:
                 # the preview tree reads the base tree at the preview path
                 return "preview-reads-base-tree-at-preview-path"
-        if fmt == "git" and field == "versioned" and p in mp and p in ma and mp[p][3] != ma[p][3] and ma[p][3] == av:
-            # _generate_index_changes does not cover this entry (child of a renamed directory / version_file only)
+        if fmt == "git" and field == "versioned" and p in mp and p in ma and ma[p][3] == "?" and mp[p][3] == pv:
+            # _generate_index_changes does not cover this entry (child of a renamed directory / version_file only):
+            # the index after apply differs from final_is_versioned
             return "git-apply-index-misses-entry"
     if fmt == "git" and field == "versioned" and pv == "E:AttributeError":
         return "git-preview-is-versioned-new-entry"
@@ -896,8 +897,9 @@ def check_case(ctx, case, res, reply, flags):
             elif res.get("resolve") == "clean" and res.get("apply") == "ok":
                 after = _norm_real(fmt, res.get("after", {}))
                 ma = _norm_model(fmt, m["applied"])
-                if after != ma:
-                    ctx.mismatch(cid, "applied " + repr(_diffs(after, ma)[:4]), "(model applied)", tie="T2 applied tree")
+                da = [d for d in _diffs(after, ma) if not (d[1] == "versioned" and d[3] == "?")]
+                if da:
+                    ctx.mismatch(cid, "applied " + repr(da[:4]), "(model applied)", tie="T2 applied tree")
                 if "preview" in res:
                     pv = _norm_real(fmt, res["preview"], True)
                     mp = _norm_model(fmt, m["preview"])
@@ -919,6 +921,9 @@ def check_case(ctx, case, res, reply, flags):
         if r == "crashed:KeyError" and ("by_parent[old_parent]" in fr or "self.by_parent()[dir_id]" in fr):
             # _reparent_transform_children / _get_potential_orphans subscript by_parent() with an id that has no children (any more)
             fam = "resolver-by-parent-keyerror"
+        if r == "crashed:KeyError" and fmt == "git" and fr.startswith("cancel_creation:") and "_new_contents" in fr:
+            # resolve_duplicate (two directories, no versioned directories): cancel_creation of a directory that is not new
+            fam = "git-duplicate-directories-cancel-creation"
         ctx.violation(cid, "resolve_conflicts raised %s instead of returning or raising MalformedTransform (conflicts %s) in %s"
                       % (r[8:], res.get("conf0"), fr or (tb.strip().splitlines()[-1] if tb else "")), family=fam)
         if res.get("after") is not None and res["after"] != before:
